@@ -6,7 +6,7 @@ import os, re, sys
 REPO = os.environ.get("VERIF_REPO", "/repo")
 V = os.path.dirname(os.path.dirname(os.path.dirname(os.path.abspath(__file__))))
 def rd(p): return open(os.path.join(REPO, "include/photospline", p)).read()
-H, F, C, FT, P = rd("splinetable.h"), rd("detail/fitsio.h"), rd("detail/convolve.h"), rd("detail/fit.h"), rd("detail/permute.h")
+H, F, C, FT, P, AX = rd("splinetable.h"), rd("detail/fitsio.h"), rd("detail/convolve.h"), rd("detail/fit.h"), rd("detail/permute.h"), rd("detail/aux.h")
 def body(src, start, end):
     i = src.index(start); j = src.index(end, i); return src[i:j]
 dtor = body(H, "~splinetable(){", "splinetable& operator=(splinetable&& other)")
@@ -14,6 +14,19 @@ movea = body(H, "splinetable& operator=(splinetable&& other){", "bool operator==
 eqop = body(H, "bool operator==(const splinetable& other) const{", "bool operator!=(const splinetable& other) const{")
 readcore = body(F, "::read_fits_core(fitsfile* fits", "::write_fits(const std::string& filePath) const{")
 readfits = body(F, "::read_fits(const std::string& filePath){", "::read_fits_core(fitsfile* fits")
+# remove_key is transcribed statement by statement (ObjModel.step_remove_key): its body, comments and white space removed, must be
+# EXACTLY one of the two texts the model was written against — any other edit of the function fails closed
+def squeeze(t):
+    t = re.sub(r"//[^\n]*", "", t); t = re.sub(r"/\*.*?\*/", "", t, flags=re.S)
+    return re.sub(r"\s+", "", t)
+rmkey = squeeze(body(AX, "::remove_key(const char* key){", "template<typename Alloc>\ntemplate<typename T>\nbool splinetable<Alloc>::read_key("))
+RM_HEAD = ("::remove_key(constchar*key){uint32_ti;for(i=0;i<naux;i++){if(strcmp(key,&*aux[i][0])==0)break;}if(i==naux)return(false);")
+RM_ORIG = RM_HEAD + ("char_ptr_ptr*tmp_aux=nullptr;try{tmp_aux=newchar_ptr_ptr[naux-1];for(uint32_tj=0,k=0;j<naux;j++){if(j!=i)tmp_aux[k++]=aux[j];}"
+    "deallocate(aux[i][0],strlen(&aux[i][0][0])+1);deallocate(aux[i][1],strlen(&aux[i][1][0])+1);deallocate(aux[i],2);deallocate(aux,naux);"
+    "naux--;aux=allocate<char_ptr_ptr>(naux);std::copy_n(&tmp_aux[0],naux,&aux[0]);delete[]tmp_aux;}catch(...){delete[]tmp_aux;throw;}return(true);}")
+RM_FIXED = RM_HEAD + ("char_ptr_ptr_ptrnew_aux=allocate<char_ptr_ptr>(naux-1);for(uint32_tj=0,k=0;j<naux;j++){if(j!=i)new_aux[k++]=aux[j];}"
+    "deallocate(aux[i][0],strlen(&aux[i][0][0])+1);deallocate(aux[i][1],strlen(&aux[i][1][0])+1);deallocate(aux[i],2);deallocate(aux,naux);"
+    "aux=new_aux;naux--;return(true);}")
 FLAGS = [  # name, original pattern present, fixed pattern present
  ("fx_aux", "deallocate(aux,naux);" in dtor and "release_aux" not in H,
             "void release_aux()" in H and "release_aux();" in readcore and ("release_aux();" in dtor or "clear();" in dtor)),
@@ -31,17 +44,22 @@ FLAGS = [  # name, original pattern present, fixed pattern present
  ("fx_moveasg", "swap(ndim,other.ndim);" in movea and "std::move(other)" not in movea,
                 "swap(ndim,other.ndim);" in movea and "splinetable released(std::move(other));" in movea),
  ("fx_auxsize", "aux[i][1] = allocate<char>(valuelen);" in readcore, "aux[i][1] = allocate<char>(storedlen);" in readcore),
+ ("fx_rmkey", rmkey == RM_ORIG, rmkey == RM_FIXED),
 ]
 bits, bad = "", []
 for name, orig, fixed in FLAGS:
     if orig == fixed:
         bad.append("%s: original=%s fixed=%s" % (name, orig, fixed))
-    bits += "1" if fixed else "0"
-if bad:
-    print("objfixes: unrecognised source state: " + "; ".join(bad)); sys.exit(1)
-out = "(* generated by tools/translators/objfixes.py from %s — do not edit.  tree_cfg_bits := \"%s\" *)\n" % (REPO, bits)
+    bits += "1" if (fixed and not orig) else "0"
+# Fails closed — but never leaves a file from ANOTHER tree behind: an unrecognised site is written as `not fixed` (so that
+# C20_tree_is_fixed cannot hold and the check's model follows the original code there and is compared with whatever the
+# tree now does), the exit status says that the translation failed.
+out = "(* generated by tools/translators/objfixes.py from %s — do not edit.  tree_cfg_bits := \"%s\"%s *)\n" % (
+    REPO, bits, ("  UNRECOGNISED: " + "; ".join(bad)) if bad else "")
 out += "From PS Require Import ObjModel.\nDefinition tree_cfg : cfg :=\n  {| " + ";\n     ".join("%s := %s" % (n, "true" if b == "1" else "false") for (n, _, _), b in zip(FLAGS, bits)) + " |}.\n"
 p = os.path.join(V, "coq", "theories", "Generated_objfixes.v")
 if not os.path.exists(p) or open(p).read() != out:
     open(p, "w").write(out)
+if bad:
+    print("objfixes: unrecognised source state: " + "; ".join(bad)); sys.exit(1)
 print("objfixes: tree_cfg bits %s" % bits)
